@@ -6,6 +6,7 @@ import (
 	"errors"
 	"fmt"
 	"io"
+	"sort"
 	"strings"
 
 	"verif/sim/kit"
@@ -513,9 +514,14 @@ func (c09) Exec(r *kit.Run) {
 					check("dump")
 				}
 			}
-			for _, l := range curs {
+			var left []int
+			for c := range curs {
+				left = append(left, c)
+			}
+			sort.Ints(left) // (map order must not decide the schedule)
+			for _, c := range left {
 				sched.UserYield("U:cleanup")
-				l.sols.Close()
+				curs[c].sols.Close()
 			}
 			sched.UserYield("U:final")
 			check("the whole history")
